@@ -367,8 +367,11 @@ Fixpoint build_loop (n : nat) (gid : Z) (repl : gmap) (offs : list Z) (data : by
   end.
 
 (* patch_offset_array, generic in the offset array: [offs] = what offset_for returns (for gvar shifted by
-   the data array offset so that [data] is the whole table), [data] = what get() slices *)
-Definition patch_offset_array (views : list gp) (t : Z) (offs : list Z) (data : bytes)
+   the data array offset so that [data] is the whole table), [data] = what get() slices, [chk] = the offsets
+   that all_offsets_are_ascending looks at: all of them for every table kind since /repo 6183e73 (before that
+   fix CFF/CFF2 compared only the first [count] offsets — finding F-C18-3; [chk] is kept so that the old
+   behaviour can be stated and refuted, see Examples.v) *)
+Definition patch_offset_array_gen (views : list gp) (t : Z) (offs chk : list Z) (data : bytes)
            (T : otype) (avail : list otype) (e_off : err) (maxgid : Z) : res (otype * list Z * bytes) :=
   match dedup views t with
   | inl (_, c) => inl (1, c)
@@ -379,11 +382,14 @@ Definition patch_offset_array (views : list gp) (t : Z) (offs : list Z) (data : 
       let total := fold_left (fun a gd => a + (len (snd gd) + len (snd gd) mod ot_div T)) m total0 in
       let? T' := choose_type T avail total in
       if last gids 0 >? maxgid then inl (6, 9) else
-      if negb (ascending offs) then inl (2, 2) else
+      if negb (ascending chk) then inl (2, 2) else
       let? (os, ds) := build_runs (S (S (length m + length keep))) (runs_from gids) keep (map snd m)
                                   offs data T' e_off 0 [] [] in
       inr (T', os, ds)
   end.
+Definition patch_offset_array (views : list gp) (t : Z) (offs : list Z) (data : bytes)
+           (T : otype) (avail : list otype) (e_off : err) (maxgid : Z) : res (otype * list Z * bytes) :=
+  patch_offset_array_gen views t offs offs data T avail e_off maxgid.
 
 Definition encode_offsets (T : otype) (os : list Z) : bytes :=
   concat (map (fun w => to_be (Z.to_nat (ot_width T)) (w / ot_div T + ot_bias T)) os).
@@ -498,12 +504,59 @@ Fixpoint mark_all (st : option bytes * option bytes) (infos : list pinfo) : res 
   | i :: r => let? st' := mark_applied st i in mark_all st' r
   end.
 
+(* CFF / CFF2 offset types: 1..4 byte offsets, 1-based (bias 1), undivided *)
+Definition ot_cff (w : Z) : otype := {| ot_width := w; ot_div := 1; ot_bias := 1; ot_max := 2 ^ (8 * w) - 2 |}.
+Definition cff_types : list otype := [ot_cff 1; ot_cff 2; ot_cff 3; ot_cff 4].
+
+(* PatchMapFormat2::cff_charstrings_offset / cff2_charstrings_offset of the font's "IFT " table
+   (well-formed format-2 table: field flags at byte 4, the optional u32 fields follow the URI template) *)
+Definition ift_charstrings_offset (f : font) (cff2 : bool) : option Z :=
+  match lookup f T_IFT with
+  | None => None
+  | Some b =>
+      match uN_at 1 b 0, uN_at 1 b 4, uN_at 2 b 33 with
+      | Some fmt, Some flags, Some tl =>
+          if negb (fmt =? 2) then None else
+          let p := 35 + tl in
+          if cff2 then (if Z.testbit flags 1 then uN_at 4 b (if Z.testbit flags 0 then p + 4 else p) else None)
+          else (if Z.testbit flags 0 then uN_at 4 b p else None)
+      | _, _, _ => None
+      end
+  end.
+
+(* CFFAndCharStrings::from_cff_font / from_cff2_font (the CFF/CFF2 table itself is assumed to pass
+   Cff::read / Cff2::read) + impl GlyphDataOffsetArray for CFFAndCharStrings incl. add_to_font.
+   [cw] = width of the INDEX count field (2 for CFF, 4 for CFF2). *)
+Definition patch_cff (cw : Z) (tg : Z) (cff2 : bool) (f : font) (views : list gp) (maxgid : Z) : res (list (Z * bytes)) :=
+  match ift_charstrings_offset f cff2 with
+  | None => inl (6, if cff2 then 19 else 18)
+  | Some cs_off =>
+      match lookup f tg with
+      | None => inl (2, 4)
+      | Some tbl =>
+          if len tbl <? cs_off then inl (2, 1) else
+          let cs := skipn (Z.to_nat cs_off) tbl in
+          match uN_at cw cs 0, uN_at 1 cs cw with
+          | Some count, Some offsz =>
+              let base := cw + 1 + (count + 1) * offsz in
+              if len cs <? base then inl (2, 1) else
+              if (offsz <? 1) || (4 <? offsz) then inl (2, 2) else
+              if negb (count =? maxgid + 1) then inl (2, 2) else
+              let offs := map (fun x => x - 1) (chunks (Z.to_nat offsz) (Z.to_nat (count + 1)) (skipn (Z.to_nat (cw + 1)) cs)) in
+              let obj := skipn (Z.to_nat base) cs in
+              let? (T', os, ds) := patch_offset_array views tg offs obj (ot_cff offsz) cff_types (2, 1) maxgid in
+              inr [(tg, firstn (Z.to_nat cs_off) tbl ++ to_be (Z.to_nat cw) count ++ [ot_width T']
+                        ++ encode_offsets T' os ++ ds)]
+          | _, _ => inl (2, 1)
+          end
+      end
+  end.
+
 (* the per-table branches of apply_glyph_keyed_patches in the order of the BTreeSet of tags
-   ('CFF ' < 'CFF2' < 'glyf' < 'gvar'); each returns the tables it adds to the font builder.
-   CFF / CFF2 charstrings rewriting is outside this model (class 98). *)
+   ('CFF ' < 'CFF2' < 'glyf' < 'gvar'); each returns the tables it adds to the font builder. *)
 Definition handler := font -> list gp -> Z -> res (list (Z * bytes)).
 Definition handlers : list (Z * handler) :=
-  [(T_CFF, fun _ _ _ => inl (98, 1)); (T_CFF2, fun _ _ _ => inl (98, 2));
+  [(T_CFF, patch_cff 2 T_CFF false); (T_CFF2, patch_cff 4 T_CFF2 true);
    (T_glyf, patch_glyf); (T_gvar, patch_gvar)].
 Fixpoint run_handlers (hs : list (Z * handler)) (f : font) (views : list gp) (maxgid : Z)
          (processed : list Z) (fb : font) : res (list Z * font) :=
